@@ -178,8 +178,11 @@ func (c *checker) checkInstance(in, canon0 *inst) {
 	k := kindName(in.sh)
 	x := in.val
 	if p := safe(func() {
+		// shapes holding <<0>> and (1 :> 0) as two members / keys are excused from the representation-level demands:
+		// an implementation that identifies them (as TLA+ does) collapses such a value
+		strictDemands := !in.sh.ambig
 		c.n["construct"].Add(1)
-		if got := canonOf(x, false); got != in.sh.strict {
+		if got := canonOf(x, false); strictDemands && got != in.sh.strict {
 			c.fail("construct/"+k+"/"+variantName(in.sh, in.v), fmt.Sprintf("%v built as %s", in, got), r)
 		}
 		c.n["reflexive"].Add(1)
@@ -187,10 +190,10 @@ func (c *checker) checkInstance(in, canon0 *inst) {
 			c.fail("equal/not-reflexive/"+k, fmt.Sprintf("%v is not Equal to itself", in), r)
 		}
 		c.n["variant_equal_hash"].Add(1)
-		if !x.Equal(canon0.val) || !canon0.val.Equal(x) {
+		if strictDemands && (!x.Equal(canon0.val) || !canon0.val.Equal(x)) {
 			c.fail("equal/construction-order/"+k, fmt.Sprintf("%v is not Equal to the same value built as %v", in, canon0), replay{Check: "pair", A: in.ref(), B: canon0.ref()})
 		}
-		if x.Hash() != canon0.val.Hash() {
+		if strictDemands && x.Hash() != canon0.val.Hash() {
 			c.fail("hash/construction-order/"+k, fmt.Sprintf("%v hashes to %d but the same value built as %v hashes to %d", in, x.Hash(), canon0, canon0.val.Hash()), replay{Check: "pair", A: in.ref(), B: canon0.ref()})
 		}
 		// gob
@@ -199,13 +202,13 @@ func (c *checker) checkInstance(in, canon0 *inst) {
 		if err != nil {
 			c.fail("gob/error/"+k, fmt.Sprintf("%v: gob round trip failed: %v", in, err), r)
 		} else {
-			if !y.Equal(x) || !x.Equal(y) || !y.Equal(canon0.val) {
+			if !y.Equal(x) || !x.Equal(y) || (strictDemands && !y.Equal(canon0.val)) {
 				c.fail("gob/not-equal/"+k, fmt.Sprintf("%v decodes to %v which is not Equal to it", in, y), r)
 			}
 			if y.Hash() != x.Hash() {
 				c.fail("gob/hash-differs/"+k, fmt.Sprintf("%v decodes to a value with another hash", in), r)
 			}
-			if got := canonOf(y, false); got != in.sh.strict {
+			if got := canonOf(y, false); strictDemands && got != in.sh.strict {
 				c.fail("gob/content-differs/"+k, fmt.Sprintf("%v decodes to %s", in, got), r)
 			}
 			if in.wrapped {
@@ -223,7 +226,7 @@ func (c *checker) checkInstance(in, canon0 *inst) {
 			c.fail("gob/error-in-message/"+k, fmt.Sprintf("%v inside a message: %v", in, err), r)
 		} else {
 			var back message
-			if err := gob.NewDecoder(&buf).Decode(&back); err != nil || !back.Value.Equal(x) || !back.Again.Equal(x) || back.Value.Hash() != x.Hash() {
+			if err := gob.NewDecoder(&buf).Decode(&back); err != nil || !back.Value.Equal(x) || (strictDemands && !back.Again.Equal(x)) || back.Value.Hash() != x.Hash() {
 				c.fail("gob/message-not-equal/"+k, fmt.Sprintf("%v inside a message decodes to %v / %v (err %v)", in, back.Value, back.Again, err), r)
 			}
 		}
@@ -296,12 +299,14 @@ func (c *checker) checkPair(a, b *inst, pb *perB, pc *pairCounts) bool {
 		c.fail("equal/asymmetric/"+kk(), fmt.Sprintf("%v Equal %v is %v but the converse is %v", a, b, eq, !eq), r())
 	}
 	switch {
+	case a.sh.ambig || b.sh.ambig:
+		pc.either++
 	case a.sh.sid == b.sh.sid:
 		pc.mustEqual++
 		if !eq {
 			c.fail("equal/construction-order/"+kindName(a.sh), fmt.Sprintf("%v is not Equal to the same value built as %v", a, b), r())
 		}
-	case a.sh.nid != b.sh.nid && !a.sh.ambig && !b.sh.ambig:
+	case a.sh.nid != b.sh.nid:
 		pc.mustDiffer++
 		if eq {
 			c.fail("equal/conflates-distinct/"+kk(), fmt.Sprintf("%v is Equal to the different value %v", a, b), r())
